@@ -1,6 +1,6 @@
 //! C09 (b): arbitrary and XML-aware mutated bytes into every RRDP parser.
 
-use super::{file_spec, with_reader, Collector, DeltaCollector, FileSpec};
+use super::{file_spec, real_limit, with_reader, Collector, DeltaCollector, FileSpec};
 use crate::engine::*;
 use proptest::prelude::*;
 use rpki::rrdp::{Delta, NotificationFile, ProcessDelta, ProcessSnapshot, Snapshot};
@@ -129,7 +129,7 @@ fn run(c: &BytesCase, obs: &mut Obs) -> CheckResult {
 
     // notification
     let n = with_reader(&doc, c.bufsize, |r| NotificationFile::parse(r));
-    let nl = with_reader(&doc, c.bufsize, |r| NotificationFile::parse_limited(r, c.limit as usize));
+    let nl = with_reader(&doc, c.bufsize, |r| NotificationFile::parse_limited(r, real_limit(c.limit)));
     ensure!(n.is_ok() == nl.is_ok(), "parse and parse_limited disagree on acceptance: {} vs {}", n.is_ok(), nl.is_ok());
     if let Ok(mut v) = n {
         any_ok = true;
@@ -143,7 +143,7 @@ fn run(c: &BytesCase, obs: &mut Obs) -> CheckResult {
             "a parsed notification does not survive write_xml/parse: {:?}", again.as_ref().err().map(|e| e.to_string())
         );
         if let Ok(l) = nl {
-            if v.deltas().len() > c.limit as usize {
+            if v.deltas().len() > real_limit(c.limit) {
                 ensure!(l.delta_status().is_err() && l.deltas().is_empty(), "parse_limited kept an oversized list");
             } else {
                 ensure!(l == v, "parse_limited differs from parse below the limit");
